@@ -22,7 +22,8 @@ func (Engine) Info(prop string) core.Info {
 	return core.Info{
 		Level: "exploration",
 		Rule: "one plan = one scripted application (Open/OpenTCP, SetPTT, Dial/DialURL/DialBandwidth or Listen+Accept, Writes of 1-70000 B, Flush, Close, TNC.Close, a reader with seeded buffer sizes 1 B-64 KB and think times) against the model TNC (reply latencies, echo styles, RDY, TX buffer drain with BUFFER reports, scripted NEWSTATE/PTT/BUSY/PENDING/TARGET/CONNECTED/DISCONNECTED orders, ARQ/FEC/IDF/ERR frames with count fields up to 65535, CRCFAULT injection, frames with a bad CRC, frames handed over in pieces, FAULT lines, malformed lines/frames and raw garbage) on seeded links (latency, segmentation), serial or TCP. " +
-			"Non-trivial: at least one ARQ payload byte was read by the client or one data frame was taken by the TNC model, or a malformed frame reached the host. Distinct: distinct event-log hash (model rx/tx, client call results, reader progress, PTT calls, with simulated timestamps).",
+			"Non-trivial: at least one ARQ payload byte was read by the client or one data frame was taken by the TNC model, or a malformed frame reached the host. Distinct: distinct event-log hash (model rx/tx, client call results, reader progress, PTT calls, with simulated timestamps). " +
+			"TCP plans may let ARQ frames overtake the CONNECTED line across the two sockets (early_data, known finding), and 0.4 % of the plans script a run of 4090-6000 small ARQ frames while the application reads nothing for 1-20 s (receive-queue backlog). ",
 		Real: []string{"transport/ardop (TNC, control loop, broadcaster, tncConn, frame and command parsing, CRC, dial, listen) with all goroutines it starts", "transport (URL, interfaces)"},
 		Stub: []string{"clock (testing/synctest)", "serial line (sim/pipe behind ardop.Open's io.ReadWriteCloser)", "TCP sockets (net import swapped for sim/shim/net -> sim/simnet)", "ARDOP TNC (ref/ardoptnc, written from the host interface spec)", "PTT controller (recording stub)", "application (scripted client)"},
 		Assumptions: []string{
